@@ -78,9 +78,9 @@ TRUSTED = [
     "modelled, not verified: the trigonometric step of project_plane_matrix / project_line_matrix: the model uses cos(arccos c) = c and sin(arccos c) = sqrt(1 - c^2) "
     "in rotation_matrix; points_are_planar / the numerical 'active dimension' thresholds of map_grid are reproduced for the correspondence, the theorem "
     "map_grid_flat_real states the exact counterpart (third local coordinate constant)",
-    "generator restriction (precise): 3-d grids that contain a sub-triangle of exactly zero area (a face edge collinear with the mean of the face's nodes, e.g. the "
-    "prism over the L-shaped polygon) are not put into the 'scaled' stratum; for them the absolute tolerance -1e-12 of _compute_geometry_3d decides by rounding "
-    "(known finding C20, replayed on every run from known_findings.d/C20.json); unscaled they are generated and stay far from the tolerance",
+    "3-d grids with sub-tetrahedra of exactly zero volume (a face edge collinear with the mean of the face's nodes, e.g. the prism over the L-shaped polygon) "
+    "are generated in every stratum, also scaled: since fix 1b09c50fb the negative-volume test of _compute_geometry_3d is relative to the largest sub-tetrahedron, "
+    "and the model's negTets / tetTol mirror it (former finding, corpus/C20/f-prism-L-zero-subtet-absolute-tolerance.json)",
     "modelled, not verified: numpy / scipy.sparse glue that gathers node coordinates per face and per cell (done by the harness when it resolves the grid "
     "for the driver), np.bincount, sparse products, np.unique(return_index)",
 ]
@@ -399,8 +399,7 @@ def gen_case(rng, tier):
             "nodes": [[frac(v) for v in row] for row in nodes], "fn": fn, "cf": cf, "motion": gen_motion(rng)}
     if rng.random() < 0.4:
         case["pre"] = gen_motion(rng)
-    if rng.random() < 0.15 and not has_zero_subtriangle(case):
-        # (grids with a sub-tetrahedron of exactly zero volume are not scaled: see known finding C20 / TRUSTED)
+    if rng.random() < 0.15:
         strata.append("scaled")
         case["scale"] = rng.choice([-20, -10, 10, 20])     # all coordinates (and the translation) times 2^k (2^30 * 256 exceeds what map_grid's absolute planarity tolerance 1e-5 admits)
     if len(cf["indptr"]) - 1 == 1:
